@@ -281,7 +281,8 @@ static void GC_Recurse(struct GC* gc, var ptr);
 
 static void GC_Mark_And_Recurse(void* _gc, void* ptr) {
   struct GC* gc = _gc;
-  GC_Mark_Item(gc, ptr);
+  /* a registered object is traced once, under its mark bit */
+  if (GC_Mem_Ptr(gc, ptr)) { GC_Mark_Item(gc, ptr); return; }
   GC_Recurse(gc, ptr);
 }
 
